@@ -25,31 +25,10 @@ pub fn def() -> CheckDef {
     }
 }
 
-/// More index hunks than one index subdirectory holds (10 000): only reachable with a tree
-/// of that many entries, so it is a scenario of its own, run for one seed in about 1 500.
-fn many_hunks(seed: u64) -> crate::scenario::Scenario {
-    use crate::scenario::{Scenario, Step};
-    use crate::tree::{EditOp, Meta};
-    let meta = Meta { mode: 0o644, mtime: (1_600_000_000, 0), uid: 0, gid: 0 };
-    let mut opts = crate::world::Opts::default();
-    opts.max_entries_per_hunk = 1;
-    Scenario {
-        check: "C13".into(),
-        seed,
-        env: crate::world::Env::default(),
-        root_meta: Meta { mode: 0o755, mtime: (1_600_000_000, 0), uid: 0, gid: 0 },
-        steps: vec![
-            Step::Edit(vec![EditOp::BulkEmptyFiles { dir: "/".into(), prefix: "f".into(), count: 10_003 + (seed % 5) as u32, meta }]),
-            Step::Backup { opts, plan: crate::sim::FaultPlan::none() },
-        ],
-        params: serde_json::json!({"many_hunks": true}),
-    }
-}
-
 fn run(seed: u64, tier: Tier, acc: &mut Acc) -> Vec<Found> {
     let sc = if seed % 1500 == 7 {
         acc.hit("more_than_10000_hunks");
-        many_hunks(seed)
+        crate::scenario::many_hunks("C13", seed)
     } else {
         generate(seed, tier, "C13")
     };
